@@ -250,6 +250,16 @@ def _step(k, op, ex, model, meshes, infos, frames, ctx, stats, api):
             return True
         if not info.valid:
             ctx.label("op:geom_invalid")
+            if (exc is None and was_sticky and info.is_frame and info.dim == 2 and info.counts
+                    and info.why.startswith("unsupported node count") and all(c in SUPPORTED[3] for c in info.counts)):
+                # the other face of F11c: the exporter still believes "3D" and types the flat elements as solids
+                if ctx.known("F11c"):
+                    ctx.label("known:F11c")
+                    model.geoms[name] = {"mesh": mi, "strict32": info.above32, "tainted": False, "sets": []}
+                    return False
+                raise Violation("%s: flat (2D) mesh with node counts %r is no supported 2D mesh, but it is accepted because an "
+                                "earlier mesh had a varying z (the same frame is rejected in a fresh exporter)" % (
+                                    _describe(k, op), sorted(set(info.counts))), bucket="F11c:2d-mesh-typed-as-3d-after-3d-mesh")
             _expect_failure(k, op, exc, (VMAPExportError,), "invalid mesh, " + info.why, ctx)
             return True
         if exc is not None:
